@@ -144,11 +144,14 @@ def main(argv=None):
     ap.add_argument("--tier", default=os.environ.get("VERIF_TIER", "quick"))
     ap.add_argument("--replay")
     ap.add_argument("--selfcheck", action="store_true")
+    ap.add_argument("--shrink", help="greedily minimise the case of a replay file (writes <file>.min.json)")
     a = ap.parse_args(argv)
     os.chdir(ROOT)
     if a.selfcheck:
         return selfcheck()
     pid = a.pid.upper()
+    if a.shrink:
+        return subprocess.run([PY, "-B", "-m", "vf.shrink", pid, a.shrink], cwd=ROOT).returncode
     seed = int(os.environ.get("VERIF_SEED", "0"))
     prop = importlib.import_module("vf.props." + pid.lower())
     work = os.path.join(ROOT, ".work", f"{pid}-{os.getpid()}")
